@@ -1,8 +1,84 @@
-(* C01 property theorems only: each closed by `exact <lemma>` with Print Assumptions beneath. *)
-From Coq Require Import ZArith List Bool.
-Require Import MV.C01.Defs MV.C01.Gen MV.C01.Model MV.C01.Spec MV.C01.Proofs.
+(* C01 property theorems only: each closed by `exact <lemma>` with Print Assumptions beneath.
+   Vocabulary: Model.v (executable model of surface.py/linear.py, parts generated in Gen.v), Pure.v (`pure_answer`:
+   the answer of a query as a function of mesh, configuration and query alone), Spec.v ("direct inspection of the
+   face list": sp_* functions, ring_spec, wf_faces / wf_mesh = oriented manifold polygon surface),
+   ProofsTables.v (mesh_of: the mesh seen by the connectivity code is built from these faces; nbrs),
+   ProofsMain.v (tables_answers_correct, border_partition_stmt: the statements spelled out). *)
+From Coq Require Import ZArith List Bool Sorting.Permutation.
+Require Import MV.C01.Defs MV.C01.Gen MV.C01.Model MV.C01.Spec MV.C01.Pure MV.C01.ProofsTables MV.C01.ProofsQuery
+        MV.C01.ProofsMain.
+Open Scope Z_scope.
 
-Theorem C01_edge_id_symmetric : forall m f s u v,
-  snd (query_step m f s (Q_edge_id u v)) = snd (query_step m f s (Q_edge_id v u)).
-Proof. exact edge_id_symmetric. Qed.
-Print Assumptions C01_edge_id_symmetric.
+(* 1. Query-order independence, all oriented manifold polygon surfaces, sorting on or off: whatever script of public
+      queries (including clear / clear_boundary_data) was issued on a fresh mesh before, every query is answered by its
+      pure answer.  With the empty script this is "a query on a fresh mesh answers what it answers later". *)
+Theorem C01_query_order_independent :
+  forall nv faces m sortflag, wf_mesh nv faces -> mesh_of nv faces m ->
+  forall (qs : list query) (q : query),
+    snd (query_step m sortflag (run_script m sortflag qs) q) = pure_answer m sortflag q.
+Proof. exact query_order_independent_wf. Qed.
+Print Assumptions C01_query_order_independent.
+
+(* 1'. The same for ANY mesh (manifold or not) on which the border computation raises no exception. *)
+Theorem C01_query_order_independent_any_mesh :
+  forall (m : mesh) (sortflag : bool), (exists r, IBV m sortflag = Ok r) ->
+  forall (qs : list query) (q : query),
+    snd (query_step m sortflag (run_script m sortflag qs) q) = pure_answer m sortflag q.
+Proof. exact query_order_independent. Qed.
+Print Assumptions C01_query_order_independent_any_mesh.
+
+(* 2. The lazily computed tables never raise on a manifold surface, whatever the configuration. *)
+Theorem C01_compute_total :
+  forall nv faces m sortflag, wf_mesh nv faces -> mesh_of nv faces m ->
+  exists T, compute_connectivity m sortflag = Ok T.
+Proof. exact compute_total. Qed.
+Print Assumptions C01_compute_total.
+
+(* 3. Order-free answers = direct inspection of the face list: next / previous / opposite corner, corner <-> half-edge,
+      face on either side of an edge (with local indices), opposite face, corner of a vertex in a face, first corner of a
+      face, edge and face identifiers.  Needs only oriented faces (no vertex-manifoldness), sorting on or off. *)
+Theorem C01_tables_correct :
+  forall nv faces m sortflag T,
+    wf_faces nv faces -> mesh_of nv faces m -> compute_connectivity m sortflag = Ok T ->
+    tables_answers_correct faces m sortflag.
+Proof. exact tables_correct. Qed.
+Print Assumptions C01_tables_correct.
+
+(* 4. Sorting on: vertex_to_corners lists the corners at the vertex once each in rotational order - a closed ring for an
+      interior vertex, an open fan starting at the corner whose incoming edge is a border edge for a border vertex
+      (ring_spec).  PARTIAL for vertex_to_vertices: proved to be a rearrangement of the neighbours; that its order is the
+      matching one (border neighbour first, then the half-edge targets of the corner ring) is checked by the
+      correspondence batches only. *)
+Theorem C01_vertex_ring_sorted_partial :
+  forall nv faces m, wf_mesh nv faces -> mesh_of nv faces m ->
+  forall A, 0 <= A < nv ->
+    (exists l, p_vertex_to_corners m true A = Ok (Some l) /\ ring_spec faces A l)
+    /\ (exists vs, p_vertex_to_vertices m true A = Ok vs /\ Permutation vs (nbrs (m_edges m) A)).
+Proof. exact vertex_ring_sorted. Qed.
+Print Assumptions C01_vertex_ring_sorted_partial.
+
+(* 5. Sorting off: the corners at the vertex / the neighbours of the vertex (the model lists them in corner / edge order;
+      the implementation's set order is compared as a set by the correspondence). *)
+Theorem C01_unsorted_sets :
+  forall nv faces m, wf_faces nv faces -> mesh_of nv faces m ->
+  forall A, 0 <= A < nv ->
+    p_vertex_to_corners m false A = Ok (Some (corners_at faces A))
+    /\ p_vertex_to_vertices m false A = Ok (nbrs (m_edges m) A)
+    /\ (forall w, In w (nbrs (m_edges m) A) <-> In (A, w) (m_edges m) \/ In (w, A) (m_edges m)).
+Proof. exact unsorted_sets. Qed.
+Print Assumptions C01_unsorted_sets.
+
+(* 6. Border / interior classification: boundary_edges ++ interior_edges is a rearrangement of all edge ids, an edge is in
+      the first iff one of its two directed versions has no face; vertices likewise (touched by a border edge). *)
+Theorem C01_border_partition :
+  forall nv faces m sortflag T,
+    wf_faces nv faces -> mesh_of nv faces m -> compute_connectivity m sortflag = Ok T ->
+    border_partition_stmt faces m sortflag.
+Proof. exact border_partition. Qed.
+Print Assumptions C01_border_partition.
+
+(* 7. The mesh mouette builds from a face list (edges and corners completed from the faces) is such a mesh. *)
+Theorem C01_build_mesh_of :
+  forall nv faces, wf_faces nv faces -> mesh_of nv faces (build_mesh nv faces).
+Proof. exact MV.C01.ProofsEdges.build_mesh_of. Qed.
+Print Assumptions C01_build_mesh_of.
